@@ -164,6 +164,21 @@ CLAIMED['C16'] = ('other',
     'sibling cross-check of codec functions over the registry\'s (format, type) pairs + dataflow/shape rules',
     'DESIGN.md section C16')
 
+CLAIMED['C09'] = ('other',
+    'Decided part: (1) the three dispatch functions are evaluated by constant propagation in the abstract interpreter for every '
+    'country code of an independent list (27 member states, EL/XI aliases, EU/IM, non-members, every country of iban.dat, with cache '
+    'membership treated as unknown) and compared with the expected module; vatin must agree with eu.vat on every EU code; (2) all 84 '
+    'package aliases resolve to modules with validate(); (3) for every (wrapper, constituent) relation the wrapper\'s validate() is '
+    'run abstractly on every accepted shape of the constituent (first-letter classes split per letter, country prefix attached) and '
+    'must have a returning path, eu.vat results carrying the prefix; (4) shape rules: wrappers return only what a constituent returned, '
+    'sub-type tables equal the ones the property names, guess_* filter the same table with is_valid(argument), national IBAN '
+    'validators start with the generic rules, iban.validate dispatches under check_country. The full equivalence for every string is '
+    'not decided.',
+    'Trusted: specs/aggregates.json (written from the EU member list and the property statement); sa/strabs models. Known finding: '
+    'vatin rejects IM-prefixed One Stop Shop numbers that eu.vat accepts.',
+    'constant propagation through dispatch functions + abstract interpretation of wrappers on constituent languages + shape rules',
+    'DESIGN.md section C09')
+
 NOT_APPLICABLE = {
 }
 
